@@ -44,14 +44,16 @@ ASSUMPTIONS = [
     "within one (remote node, purpose, role) key the link delivers in its own generation order; across keys any order",
     "no message loss/duplication between link and controller (the property promises exactly-once consumption of each "
     "delivered response, not tolerance of a lossy link)",
-    "all requests that share a key have the same type; socket ids are unique per node (the executor keys requests by "
-    "(remote node, purpose) only)",
+    "socket ids are unique per node (the executor keys requests by (remote node, purpose) only); keep and measure "
+    "requests share a key in a third of the stormy applications -- the remote side then creates in the order in which "
+    "this node receives",
     "scenarios are deadlock-free by construction: every pre-allocated qubit is freed before the first wait, every "
     "request is awaited -- in its own subroutine or (runs that do not avoid the recorded finding) in the application's next one",
 ]
 PROBES = ["one-socket-id-towards-two-remote-nodes", "request-outlives-its-subroutine", "purpose-id-differs-from-socket-id", "request-refused-by-stack", "sdk-form", "early-response", "deferred-busy-qubit", "two-requests-one-key", "cross-key-reorder", "wait-polled",
           "wait_any", "wait_single", "create-role", "recv-role", "type-M", "type-K", "legacy-tuples", "qlink-objects",
-          "two-apps-concurrent", "retry-fired", "array-addresses-declared-again-by-the-next-subroutine"]
+          "two-apps-concurrent", "retry-fired", "array-addresses-declared-again-by-the-next-subroutine",
+          "keep-and-measure-requests-on-one-key", "rsp-with-min-fidelity", "rsp-retried"]
 
 GHOSTS = [7, 8]
 T0, T1, T2, T3, T4 = ("R", 0), ("R", 1), ("R", 2), ("R", 3), ("R", 4)
@@ -107,6 +109,8 @@ def gen_scenario(ch: Choices, calm: bool, tier: str = "quick", avoid: Any = ()) 
         vnext = 0
         # as the SDK does after every flush: each subroutine declares its arrays at the same addresses again
         reuse_addr = (not calm) and ch.flag(1, 3, "reuse-addr")
+        # keep and measure requests may share a (socket, role) key (the remote side then creates in the same order)
+        mixed_types = (not calm) and "mixed-types-on-one-key" not in avoid and ch.flag(1, 3, "mixed-types")
         for s in range(n_subs):
             if reuse_addr:
                 addr = 0
@@ -117,7 +121,7 @@ def gen_scenario(ch: Choices, calm: bool, tier: str = "quick", avoid: Any = ()) 
                 so = socks[ch.draw(len(socks), "sock")]
                 role = "create" if ch.flag(1, 2, "role") else "recv"
                 k = (so["sock"], role)
-                tp = key_type.get(k) or ("K" if ch.flag(3, 5, "type") else "M")
+                tp = (None if mixed_types else key_type.get(k)) or ("K" if ch.flag(3, 5, "type") else "M")
                 key_type[k] = tp
                 n = 1 + ch.draw(3, "npairs")
                 vids = list(range(vnext, vnext + n)) if tp == "K" else []
@@ -157,7 +161,8 @@ def gen_scenario(ch: Choices, calm: bool, tier: str = "quick", avoid: Any = ()) 
             addr += 3
             subs.insert(ch.draw(len(subs), "refpos"), {"reqs": [rr], "filler": 0, "waits": [0], "order": [0], "unit_need": vnext,
                                                          "refused": True})
-        apps.append({"id": a, "socks": socks, "subs": subs, "unit": max(vnext, 1), "reuse_addr": reuse_addr and n_subs > 1})
+        apps.append({"id": a, "socks": socks, "subs": subs, "unit": max(vnext, 1), "reuse_addr": reuse_addr and n_subs > 1,
+                     "mixed_types": mixed_types})
     return {"apps": apps}
 
 
@@ -275,8 +280,19 @@ def run_sdk(ch: Choices, opts: Dict[str, Any], calm: bool) -> Dict[str, Any]:
         for _ in range(1 + ch.draw(2, "nreq")):
             creator = ch.draw(2, "creator")
             tp = tp_of.get(creator) or ("K" if ch.flag(1, 2, "tp") else "M")
+            if not calm and "rsp-with-retries" not in opts.get("avoid", ()) and tp_of.get(creator) is None and ch.flag(1, 5, "rsp"):
+                tp = "R"
             tp_of[creator] = tp
-            seq.append((creator, tp, 1 + ch.draw(3, "np")))
+            if tp == "R":
+                # remote state preparation with a minimum-fidelity constraint: both hosts wrap the request in a re-try
+                # loop; `slow` says which attempts the link reports as too slow (the last one never is: what happens when
+                # every attempt fails is C09's recorded finding)
+                tries = 1 + ch.draw(3, "tries")
+                slow = [ch.flag(1, 2, "slow") for _ in range(tries)]
+                slow[-1] = False
+                seq.append((creator, tp, 1 + ch.draw(2, "np"), 50 + ch.draw(51, "fid"), tries, slow))
+            else:
+                seq.append((creator, tp, 1 + ch.draw(3, "np")))
         per_sock.append(seq)
 
     def interleave() -> List[tuple]:
@@ -298,6 +314,31 @@ def run_sdk(ch: Choices, opts: Dict[str, Any], calm: bool) -> Dict[str, Any]:
     tail = lambda: [list(map(str, e)) for e in trace.events[-40:]]  # noqa: E731
     mons = [EprMonitor(nodes[i], link, lambda k, i=i: bump(probes, k), tail) for i in (0, 1)]
     state = {"done": 0}
+    # durations the link reports for the attempts of the re-tried requests, per (creator, purpose) in issue order
+    rsp_plans: Dict[Tuple[int, int], List[List[int]]] = {}
+    for (s_id, creator, tp, n, *more) in order:
+        if tp != "R":
+            continue
+        fid, tries, slow = more
+        maxt = 100_000 - fid * 900          # the documented conversion of the fidelity bound into a duration
+        for a in range(slow.index(False) + 1):
+            last = maxt + 1 + ch.draw(3, "over") if slow[a] else max(0, maxt - ch.draw(3, "under"))
+            rsp_plans.setdefault((creator, nodes[creator].stack.pfun(s_id, 1 - creator)), []).append(
+                [ch.draw(2 * maxt, "dur") for _ in range(n - 1)] + [last])
+        bump(probes, "rsp-with-min-fidelity")
+        if slow.index(False) > 0:
+            bump(probes, "rsp-retried")
+            bump(faults, "link-reports-slow-generation", slow.index(False))
+
+    def goodness(job, k):
+        rq = job.get("request")
+        if rq is None or rq.type != RequestType.R:
+            return None
+        if "plan" not in job:
+            pl = rsp_plans.get((job["creator"], job["purpose_c"]))
+            job["plan"] = pl.pop(0) if pl else None
+        return None if job["plan"] is None or k >= len(job["plan"]) else job["plan"][k]
+    link.goodness_override = goodness
 
     def host(i: int):
         me, peer = ("alice", "bob") if i == 0 else ("bob", "alice")
@@ -319,10 +360,17 @@ def run_sdk(ch: Choices, opts: Dict[str, Any], calm: bool) -> Dict[str, Any]:
                                     {"node": i, "error": str(e)[:300], **sample})
                 yield y
 
-        for (s_id, creator, tp, n) in plans[i]:
+        for (s_id, creator, tp, n, *more) in plans[i]:
             sk = socks[s_id]
             try:
-                if tp == "K":
+                if tp == "R":
+                    fid, tries, slow = more
+                    if creator == i:
+                        sk.create_rsp(number=n, min_fidelity_all_at_end=fid, max_tries=tries)
+                    else:
+                        for q in sk.recv_rsp(number=n, min_fidelity_all_at_end=fid, max_tries=tries):
+                            q.measure()
+                elif tp == "K":
                     qs = sk.create_keep(number=n) if creator == i else sk.recv_keep(number=n)
                     for q in qs:
                         q.measure()
@@ -555,6 +603,10 @@ def run(ch: Choices, opts: Dict[str, Any]) -> Dict[str, Any]:
         return cur
 
     # ---- host tasks -------------------------------------------------------
+    if any(len({r.tp for s2 in app["subs"] for r in s2["reqs"] if (r.sock, r.role) == k2}) > 1
+           for app in sc["apps"] if app.get("mixed_types")
+           for k2 in {(r.sock, r.role) for s2 in app["subs"] for r in s2["reqs"]}):
+        bump(probes, "keep-and-measure-requests-on-one-key")
     if any(app.get("reuse_addr") for app in sc["apps"]):
         bump(probes, "array-addresses-declared-again-by-the-next-subroutine")
     if any(so.get("reused") for app in sc["apps"] for so in app["socks"]):
@@ -564,8 +616,21 @@ def run(ch: Choices, opts: Dict[str, Any]) -> Dict[str, Any]:
         for so in app["socks"]:
             node.open_socket(app["id"], so["sock"], so["remote"], so["rsock"])
 
-    def ghost_task(r: Req):
+    ghost_fifo: Dict[Tuple[int, int], List[Any]] = {}
+
+    def ghost_task(r: Req, ordered: bool = False):
+        if ordered:
+            # the remote node creates in the order in which this node receives (keep and measure requests share the key)
+            fifo = ghost_fifo.setdefault((r.remote, r.sock), [])
+            fifo.append(r)          # (at spawn time: see ghost_spawn)
+        return _ghost_body(r, fifo if ordered else None)
+
+    def _ghost_body(r: Req, fifo: Any):
+        ordered = fifo is not None
         yield ("sleep", r.ghost_delay)
+        if ordered:
+            yield ("block", lambda: fifo[0] is r)
+            fifo.pop(0)
         link.submit(creator=r.remote, receiver=0, purpose_c=r.rsock, purpose_r=r.sock,
                     tp=RequestType.K if r.tp == "K" else RequestType.M, number=r.n)
 
@@ -580,7 +645,7 @@ def run(ch: Choices, opts: Dict[str, Any]) -> Dict[str, Any]:
             g = node.handle_raw(subroutine_bytes(prog, aid, node.flavour))
             for r in sub["reqs"]:
                 if r.role == "recv":
-                    sched.spawn(f"ghost{aid}.{k}.{r.j}", ghost_task(r), party="link")
+                    sched.spawn(f"ghost{aid}.{k}.{r.j}", ghost_task(r, app.get("mixed_types", False)), party="link")
             while True:
                 try:
                     y = next(g)
